@@ -14,9 +14,11 @@
    bincode of SizesInfo is CompLayer.footer_of.
    Explicit hypotheses: UNCOMPRESSED_DATA_SIZE < 2^32 (a u32 constant), every compressed block is shorter
    than 2^32 bytes (CompLayer.v's own assumption on `WriterWithCount.pos`, a u32: here it is a premise).
-   DIFFERENCE found (cw_finalize_limit_differs): `serialize_into` runs under `with_limit(BINCODE_MAX_DESERIALIZE)`;
-   CompLayer.cw_finalize only knows the u32 bound of the length field.  cw_finalize_src therefore has the
-   premise that the footer fits the limit (512 MiB: 2^27 blocks). *)
+   The DIFFERENCE found by this work package (`serialize_into` runs under `with_limit(BINCODE_MAX_DESERIALIZE)`;
+   CompLayer.cw_finalize only knew the u32 bound of the length field) was REPAIRED by the fixlimits work package: the
+   model has the limit as a parameter, cw_finalize_src has no premise on the footer size any more, and
+   cw_finalize_limit_differs is kept as a regression example (model = source on both sides of a small limit). *)
+From MLA Require Import Limit.
 From MLA Require Import Base Stream CompLayer.
 From MLAGen Require Src3c.
 From Coq Require Import ZifyBool ZifyNat ZifyN.
@@ -24,6 +26,7 @@ Open Scope N_scope.
 
 (* ---------- WriterWithCount over ANY inner writer ---------- *)
 Section Wwc.
+  Context {LIM : Limit}.
   Variable W : Type.
   Variable w_write : W -> bytes -> W * res N.
   Variable w_flush : W -> W * res unit.
@@ -76,6 +79,7 @@ End Wwc.
 (* ---------- CompressionLayerWriter against CompLayer.v ---------- *)
 Section Tie.
   Variables BLOCK LIMIT : N.
+  Local Hint Extern 0 Limit => exact LIMIT : typeclass_instances.
   Variable comp : bytes -> bytes.
   Variable is_interrupted : err -> bool.
   Variables site_sub site_index site_add_u32 : N.
@@ -161,20 +165,21 @@ Section Tie.
     | _ => footer_of (cw_sizes w) 0
     end.
 
-  Theorem cw_finalize_src x w : Rw x w -> len (footer_for w) <= LIMIT ->
+  (* no premise on the footer size any more: the model has the bincode limit (fixlimits) *)
+  Theorem cw_finalize_src x w : Rw x w ->
     let '(x', r) := g_finalize x in
     let '(w', r') := cw_finalize comp w in r = r' /\ Rw x' w'.
   Proof.
-    intros [Hst Hsz] Hlim. unfold Src3c.Wr.cw_finalize, cw_finalize, footer_for in *. cbv zeta.
+    intros [Hst Hsz]. unfold Src3c.Wr.cw_finalize, cw_finalize, lim in *. cbv zeta.
     destruct x as [st sizes lvl]. destruct w as [o wst wsz]. wsimpl. subst wsz.
     inversion Hst as [o'|o' e written cur|o']; subst; wsimpl.
     - unfold vw_serialize, vw_size, si_bytes. cbn [si_sizes si_last].
-      destruct (N.ltb_spec LIMIT (len (footer_of sizes 0))) as [Hc|_]; [lia|]. cbn [is_ok negb].
+      destruct (LIMIT <? len (footer_of sizes 0)); [split; [reflexivity|split; [constructor|reflexivity]]|]. cbn [is_ok negb].
       destruct (2 ^ 32 <=? len (footer_of sizes 0)); [split; [reflexivity|split; [constructor|reflexivity]]|].
       unfold vw_write_all, vw_ok. rewrite <- app_assoc. split; [reflexivity|split; [constructor|reflexivity]].
     - rewrite finish_eq. cbn [Src3c.Wr.wwc_check_no_error Src3c.Wr.wwc_error]. wsimpl.
       unfold vw_serialize, vw_size, si_bytes. cbn [si_sizes si_last].
-      destruct (N.ltb_spec LIMIT (len (footer_of (sizes ++ [len (comp cur)]) written))) as [Hc|_]; [lia|]. cbn [is_ok negb].
+      destruct (LIMIT <? len (footer_of (sizes ++ [len (comp cur)]) written)); [split; [reflexivity|split; [constructor|reflexivity]]|]. cbn [is_ok negb].
       destruct (2 ^ 32 <=? len (footer_of (sizes ++ [len (comp cur)]) written)); [split; [reflexivity|split; [constructor|reflexivity]]|].
       unfold vw_write_all, vw_ok. rewrite <- app_assoc. split; [reflexivity|split; [constructor|reflexivity]].
     - split; [reflexivity|split; [constructor|reflexivity]].
@@ -193,14 +198,16 @@ Section Tie.
   Proof. reflexivity. Qed.
 End Tie.
 
-(* the DIFFERENCE between CompLayer.cw_finalize and the source, on a small instance of the limit: with a limit
-   of 10 bytes the 12-byte SizesInfo of the empty stream is refused by `serialize_into` (nothing written, state
-   Empty), while the model writes the footer and answers Ok *)
+(* REGRESSION example (was the machine-checked DIFFERENCE cw_finalize_limit_differs before the model had the limit): with a
+   limit of 10 bytes the 12-byte SizesInfo of the empty stream is refused by `serialize_into` (nothing written, state
+   Empty) -- by the source AND by the model; with a limit of 12 both write the footer and answer Ok *)
 Example cw_finalize_limit_differs :
   let x := Src3c.Wr.CompressionLayerWriter_new bytes [] 5 in
   snd (Src3c.Wr.cw_finalize 10 toy_comp bytes vw_write_all vw_ok vw_serialize vw_size (finish (fun _ => false) 0) x) = Err EIo /\
-  snd (cw_finalize toy_comp cw_init) = Ok tt.
-Proof. vm_compute. split; reflexivity. Qed.
+  cw_finalize (LIM := 10) toy_comp cw_init = (mkCW [] WEmpty [], Err EIo) /\
+  snd (Src3c.Wr.cw_finalize 12 toy_comp bytes vw_write_all vw_ok vw_serialize vw_size (finish (fun _ => false) 0) x) = Ok tt /\
+  snd (cw_finalize (LIM := 12) toy_comp cw_init) = Ok tt.
+Proof. vm_compute. repeat split; reflexivity. Qed.
 
 (* non-vacuity: two blocks of 4 bytes through the translated writer, then finalize = the model's bytes *)
 Example cw_translated_nonvacuous :
